@@ -10,6 +10,7 @@ import (
 	"strings"
 	"sync"
 	"sync/atomic"
+	"syscall"
 	"time"
 
 	"github.com/scrapli/scrapligo/driver/generic"
@@ -41,7 +42,7 @@ func errClass(err error) string {
 		return "noop"
 	case errors.Is(err, util.ErrOperationError):
 		return "operation"
-	case errors.Is(err, sim.ErrSimIO):
+	case errors.Is(err, sim.ErrSimIO), errors.Is(err, syscall.ETIMEDOUT):
 		return "io"
 	case errors.Is(err, sim.ErrSimWrite):
 		return "write"
